@@ -84,6 +84,7 @@ struct Judge<'a> {
     same_trace_header: bool,
     downstream_spans: usize,
     continued_spans: usize,
+    frame_current_hop_with_spans: bool,
 }
 
 fn count_spans(items: &[PItem]) -> usize {
@@ -404,6 +405,9 @@ impl<'a> Judge<'a> {
                 if a.unknown {
                     return self.items(items, a, cx);
                 }
+                if *carry == Carry::FrameCurrent && a.valid() && count_spans(items) > 0 {
+                    self.frame_current_hop_with_spans = true;
+                }
                 let inner = if *carry == Carry::Nothing {
                     NOTHING
                 } else {
@@ -496,6 +500,7 @@ pub fn judge(case: &Case, prog: &Prog, recs: &[Rec], log: &[L], cx: &mut Cx) -> 
         same_trace_header: false,
         downstream_spans: 0,
         continued_spans: 0,
+        frame_current_hop_with_spans: false,
     };
 
     for r in recs {
@@ -515,6 +520,7 @@ pub fn judge(case: &Case, prog: &Prog, recs: &[Rec], log: &[L], cx: &mut Cx) -> 
     // the sampler call log, attributed to span starts by position
     let mut open: Option<usize> = None;
     let mut call_no = 0usize;
+    let mut migrated_polls = 0usize;
     for l in log {
         match l {
             L::Begin(n) => {
@@ -545,6 +551,10 @@ pub fn judge(case: &Case, prog: &Prog, recs: &[Rec], log: &[L], cx: &mut Cx) -> 
             }
             L::HopSkipped { id } => {
                 j.hop_skipped.insert(*id);
+            }
+            L::PollThreadEnd { tp } => {
+                migrated_polls += 1;
+                vassert!(cx, *tp == EMPTY_TP, "traceparent-left-on-poll-thread", "after a poll that ran on a fresh thread, that thread's Traceparent::current() is {}", tp.text());
             }
         }
     }
@@ -582,6 +592,8 @@ pub fn judge(case: &Case, prog: &Prog, recs: &[Rec], log: &[L], cx: &mut Cx) -> 
     cx.class_if(j.continued_spans > 0, "span-continuing-a-received-trace");
     cx.class_if(any_hop, "hop");
     cx.class_if(!j.hop_entry.is_empty(), "thread-hop-carried");
+    cx.class_if(j.frame_current_hop_with_spans, "frame-current-hop-with-spans");
+    cx.class_if(migrated_polls > 0, "async-join-polls-migrate-threads");
     cx.class_if(case.in_sampled.is_some(), "with-sampled-trace-filter");
     cx.class_if(case.in_sampled == Some(false), "sampled-trace-filter(false)");
     cx.class_if(prog.nodes >= 8, "nodes>=8");
